@@ -777,7 +777,7 @@ def gen_cases(tier, rng):
         nfor, k_sub, k_tpl, cap = 1, 1, 1, 8.0
     else:
         pick = {"usp": rng.sample(idx["usp"], 40), "eco": rng.sample(idx["eco"], 70)}
-        nfor, k_sub, k_tpl, cap = 3, 2, 2, 30.0
+        nfor, k_sub, k_tpl, cap = 2, 2, 2, 16.0
     for name in ("usp", "eco"):
         for n_, (i, mode) in enumerate(pick[name]):
             inv = rng.random() < 0.5
